@@ -1,8 +1,9 @@
 (* Props/C06.v -- C06: infeasible-path elimination is effective and idempotent.  Property theorems only.
-   Proved in the exact-arithmetic idealisation (containment tolerance 0; an oracle that is exact on the closed
-   path polytopes of the tree: Infeasible <-> empty, Unbounded / Optimal w only for non-empty polytopes with w
-   inside, never Error).  The tolerance gap of the real code (1e-8 containment, minilp's 1e-8) is covered per
-   instance by the certified region checks of the runner (regions relaxed by tau).
+   Proved for every containment tolerance tol >= 0 (the code: 1e-8) and an oracle that is exact on the closed path
+   polytopes of the tree: Infeasible <-> empty, Unbounded / Optimal w only for non-empty polytopes with w inside,
+   never Error.  A node's region is "non-empty" exactly when the evidence is an LP answer, and within the
+   containment tolerance when the evidence is a cached / inherited witness (ne_tol) -- i.e. never empty by more than
+   the tolerance.  minilp's own 1e-8 is what the per-instance certified region checks of the runner cover.
    Input (okc_kids): every decision has both branches; cached states below the root are Indeterminate or sound
    feasible ones, uniformly per sibling pair (fresh trees, results of earlier runs, compositions of those).
 
@@ -12,19 +13,19 @@
    non-empty closed region (C06_effective, through eff). *)
 From AT Require Import Num Vec Aff PTree Cells Abs Cache Elim ElimEval ElimCache ElimEff ElimExample.
 
-(* eff q r: node r below the root has a determined feasible state, a non-empty closed path polytope q, and -- if it
+(* eff tol q r: node r below the root has a determined feasible state, a non-empty closed path polytope q, and -- if it
    is a decision -- both branches, recursively.  eff_root: the same for every node below the root (the root itself
    may be left with a single branch). *)
-Theorem C06_effective_partial : forall o t, (forall r, is_path [] t r -> oexact_at o r) -> mir_sound o 0 ->
-  c_exists t = true -> okc_kids [] t -> st_wit 0 [] (c_state t) ->
-  eff_root [] (fst (elim o 0 t)).
+Theorem C06_effective : forall o tol t, 0 <= tol -> (forall r, is_path [] t r -> oexact_at o r) -> mir_sound o tol ->
+  c_exists t = true -> okc_kids tol [] t -> st_wit tol [] (c_state t) ->
+  eff_root tol [] (fst (elim o tol t)).
 Proof. exact elim_eff. Qed.
 (* what eff says, unfolded one level: non-empty region, no single-branch decision *)
-Theorem C06_eff_content : forall q i leaf p s c0 c1, eff q (CN i leaf p s c0 c1) ->
-  ne q /\ is_feas s = true /\ (leaf = false -> c_exists c0 = true /\ c_exists c1 = true).
+Theorem C06_eff_content : forall tol q i leaf p s c0 c1, 0 <= tol -> eff tol q (CN i leaf p s c0 c1) ->
+  ne_tol tol q /\ is_feas s = true /\ (leaf = false -> c_exists c0 = true /\ c_exists c1 = true).
 Proof. exact eff_content. Qed.
 (* running the elimination again -- with any oracle, any tolerance -- changes nothing and solves no LP *)
-Theorem C06_idempotent : forall o tol o' tol' t, eff_root [] (fst (elim o tol t)) ->
+Theorem C06_idempotent : forall o tol o' tol' t, eff_root tol [] (fst (elim o tol t)) ->
   elim o' tol' (fst (elim o tol t)) = (fst (elim o tol t), k0).
 Proof. exact elim_idem. Qed.
 (* more generally: any tree whose nodes below the root carry determined feasible states is a fixed point *)
@@ -33,12 +34,12 @@ Theorem C06_fixed_point : forall o tol t isroot q st k, settled_kids t ->
 Proof. exact elim_sub_fixed. Qed.
 
 Example C06_nonvacuous :
-  eff_root [] (fst (elim ex_o 0 ex_t)) /\
+  eff_root 0 [] (fst (elim ex_o 0 ex_t)) /\
   elim ex_o 0 ex_t = (ex_r, {| k_lp := 4; k_mir := 0 |}) /\
   elim ex_o 0 ex_r = (ex_r, k0).
 Proof. exact ex_c06. Qed.
 
-Print Assumptions C06_effective_partial.
+Print Assumptions C06_effective.
 Print Assumptions C06_eff_content.
 Print Assumptions C06_idempotent.
 Print Assumptions C06_fixed_point.
